@@ -42,11 +42,14 @@ type Scope struct {
 	mem          *Mem
 	oldMem       *Mem
 	loopEntryMem *Mem
+	gh           *Ghost
+	oldGh        *Ghost
 	golookup     func(name string) (SV, bool)
 	goal         bool
 	pkg          *types.Package
 	what         string
 	depth        int
+	qdepth       int
 }
 
 type specError struct{ msg string }
@@ -87,6 +90,17 @@ func (e *Engine) svOf(v Val, t types.Type) SV {
 	return SV{k: kVal, v: v, gt: t}
 }
 
+// ghost state addresses
+const (
+	ghostOUT    = uint64(1) << 62
+	ghostOUTLEN = ghostOUT - 64
+	ghostIN     = uint64(1) << 61
+	ghostINPOS  = ghostIN - 64
+	ghostINLEN  = ghostIN - 32
+)
+
+var ghostConsts = map[string]uint64{"OUT": ghostOUT, "OUTLEN": ghostOUTLEN, "IN": ghostIN, "INPOS": ghostINPOS, "INLEN": ghostINLEN}
+
 var specTypes = map[string]struct {
 	w      int
 	signed bool
@@ -120,10 +134,41 @@ func (e *Engine) evalInt(sc *Scope, ex ast.Expr, what string) *Term {
 	return v.t
 }
 
+// designator: what a modifies clause names. ghost == "" is real memory
+// [lo, lo+n); otherwise a ghost scalar (lo == nil) or a ghost stream range.
+type designator struct {
+	ghost string
+	lo, n *Term
+}
+
+func (e *Engine) evalDesignator(sc *Scope, ex ast.Expr, what string) designator {
+	sc.what = what
+	switch x := ex.(type) {
+	case *ast.Ident:
+		switch x.Name {
+		case "OUTLEN":
+			return designator{ghost: "outlen"}
+		case "INPOS":
+			return designator{ghost: "inpos"}
+		case "INLEN":
+			return designator{ghost: "inlen"}
+		}
+	case *ast.CallExpr:
+		if id, ok := x.Fun.(*ast.Ident); ok && (id.Name == "outreg" || id.Name == "inreg") && len(x.Args) == 2 {
+			lo := sc.toInt(sc.eval(x.Args[0]), 64, false)
+			n := sc.toInt(sc.eval(x.Args[1]), 64, false)
+			return designator{ghost: id.Name[:len(id.Name)-3], lo: lo, n: n}
+		}
+	}
+	lo, n := e.evalRegion(sc, ex, what)
+	return designator{lo: lo, n: n}
+}
+
 // evalRegion evaluates a modifies designator to (start address, byte length).
 func (e *Engine) evalRegion(sc *Scope, ex ast.Expr, what string) (*Term, *Term) {
 	sc.what = what
 	tb := e.tb
+	var fieldLo, fieldN *Term
 	switch x := ex.(type) {
 	case *ast.StarExpr:
 		p := sc.eval(x.X)
@@ -140,6 +185,33 @@ func (e *Engine) evalRegion(sc *Scope, ex ast.Expr, what string) (*Term, *Term) 
 			p := sc.toInt(sc.eval(x.Args[0]), 64, false)
 			n := sc.toInt(sc.eval(x.Args[1]), 64, false)
 			return p, n
+		}
+	}
+	if sel, ok := ex.(*ast.SelectorExpr); ok {
+		// region of a struct field reached through a typed pointer: p.f
+		if _, isPkg := sel.X.(*ast.Ident); !isPkg || true {
+			func() {
+				defer func() { recover() }()
+				base := sc.eval(sel.X)
+				if base.k == kInt && base.gt != nil {
+					if pt, ok := base.gt.Underlying().(*types.Pointer); ok {
+						if st, ok := pt.Elem().Underlying().(*types.Struct); ok {
+							offs := structOffsets(st)
+							for i := 0; i < st.NumFields(); i++ {
+								if st.Field(i).Name() == sel.Sel.Name {
+									if _, isSlice := st.Field(i).Type().Underlying().(*types.Slice); !isSlice {
+										fieldLo = tb.Add(base.t, tb.ConstU(uint64(offs[i]), 64))
+										fieldN = tb.ConstU(uint64(sizes.Sizeof(st.Field(i).Type())), 64)
+									}
+								}
+							}
+						}
+					}
+				}
+			}()
+			if fieldLo != nil {
+				return fieldLo, fieldN
+			}
 		}
 	}
 	v := sc.eval(ex)
@@ -252,6 +324,7 @@ func (s *Scope) eval(ex ast.Expr) SV {
 		case "nil":
 			return SV{k: kUntyped, c: new(big.Int)}
 		}
+
 		if v, ok := s.lookup(x.Name); ok {
 			return v
 		}
@@ -717,6 +790,9 @@ func (s *Scope) evalCall(x *ast.CallExpr) SV {
 		}
 		c := *s
 		c.mem = s.oldMem
+		if s.oldGh != nil {
+			c.gh = s.oldGh
+		}
 		r := c.eval(args[0])
 		return r
 	case "atentry":
@@ -778,12 +854,22 @@ func (s *Scope) evalCall(x *ast.CallExpr) SV {
 		skolem := univ == s.goal
 		var kv *Term
 		if skolem {
-			kv = tb.Fresh("sk."+kid.Name, BV(64))
+			// Skolem constants come from a small shared pool (one per nesting
+			// depth): quantified hypotheses are instantiated at exactly these
+			// constants, so goal and hypotheses meet on the same index terms.
+			if s.qdepth < len(e.skolemPool) {
+				kv = e.skolemPool[s.qdepth]
+			} else {
+				kv = tb.Fresh("sk."+kid.Name, BV(64))
+			}
 		} else {
 			kv = tb.Bound(kid.Name, BV(64))
 		}
 		c := s.child()
 		c.goal = s.goal
+		if skolem {
+			c.qdepth = s.qdepth + 1
+		}
 		c.vars[kid.Name] = SV{k: kInt, t: kv, signed: true}
 		p := c.eval(args[3])
 		if p.k != kBool {
@@ -820,6 +906,9 @@ func (s *Scope) evalCall(x *ast.CallExpr) SV {
 			instAt(tb.ConstU(uint64(c), 64))
 		}
 		instAt(tb.Sub(hit, tb.ConstU(1, 64)))
+		for _, sk := range e.skolemPool {
+			instAt(sk)
+		}
 		if univ {
 			return SV{k: kBool, t: tb.And(append([]*Term{tb.Forall([]*Term{kv}, body)}, insts...)...)}
 		}
@@ -838,6 +927,20 @@ func (s *Scope) evalCall(x *ast.CallExpr) SV {
 			s.fail("ctz needs a typed integer")
 		}
 		return SV{k: kInt, t: e.ctz(v.t, 64), signed: true}
+	case "out", "in":
+		// ghost byte streams (writer output / reader input): own memories
+		need(1)
+		if s.gh == nil {
+			s.fail("ghost state not available here")
+		}
+		i := s.toInt(s.eval(args[0]), 64, false)
+		return SV{k: kInt, t: e.mc.Read8(s.gh.mm[name], i)}
+	case "outlen", "inpos", "inlen":
+		need(0)
+		if s.gh == nil {
+			s.fail("ghost state not available here")
+		}
+		return SV{k: kInt, t: s.gh.sc[name], signed: true}
 	case "mem8":
 		need(1)
 		a := s.toInt(s.eval(args[0]), 64, false)
@@ -960,7 +1063,7 @@ func (s *Scope) evalCall(x *ast.CallExpr) SV {
 		if s.depth > 64 {
 			s.fail("spec recursion too deep (%s)", name)
 		}
-		c := &Scope{e: e, vars: map[string]SV{}, mem: s.mem, oldMem: s.oldMem, loopEntryMem: s.loopEntryMem, goal: s.goal, pkg: s.pkg, what: s.what + " / spec " + name, depth: s.depth + 1}
+		c := &Scope{e: e, vars: map[string]SV{}, mem: s.mem, oldMem: s.oldMem, loopEntryMem: s.loopEntryMem, gh: s.gh, oldGh: s.oldGh, goal: s.goal, pkg: s.pkg, what: s.what + " / spec " + name, depth: s.depth + 1}
 		for i, p := range sf.Params {
 			c.vars[p.Name] = s.coerceParam(s.eval(args[i]), p.Type, name+"."+p.Name)
 		}
@@ -1103,7 +1206,7 @@ func (s *Scope) bytesEq(m1 *Mem, p *Term, m2 *Mem, q *Term, n *Term) *Term {
 	}
 	var k *Term
 	if s.goal {
-		k = tb.Fresh("sk.byte", BV(64))
+		k = e.skolemPool[0]
 	} else {
 		k = tb.Bound("byte", BV(64))
 	}
@@ -1192,7 +1295,7 @@ func (e *Engine) bswap(x *Term) *Term {
 // debug-named SSA values present in the environment; over overrides values.
 func (f *Frame) scopeAt(st *execState, over map[ssa.Value]Val) *Scope {
 	e := f.e
-	sc := &Scope{e: e, vars: map[string]SV{}, mem: st.mem, oldMem: f.entryMem, pkg: f.fn.Pkg.Pkg}
+	sc := &Scope{e: e, vars: map[string]SV{}, mem: st.mem, oldMem: f.entryMem, gh: st.gh, oldGh: f.entryGh, pkg: f.fn.Pkg.Pkg}
 	sc.golookup = func(name string) (SV, bool) {
 		// a loop-carried / merged value (phi) of that name shadows the parameter
 		for _, c := range f.names[name] {
@@ -1203,12 +1306,23 @@ func (f *Frame) scopeAt(st *execState, over map[ssa.Value]Val) *Scope {
 				return e.svOf(v, c.Type()), true
 			}
 		}
+		// among the phis of that name that are live here, the one defined
+		// closest to the current block (deepest dominator) is the variable's
+		// current value
 		var lastPhi ssa.Value
 		for _, c := range f.names[name] {
-			if _, isPhi := c.(*ssa.Phi); isPhi {
-				if _, ok := st.env[c]; ok {
-					lastPhi = c
-				}
+			phi, isPhi := c.(*ssa.Phi)
+			if !isPhi {
+				continue
+			}
+			if _, ok := st.env[c]; !ok {
+				continue
+			}
+			if f.curBlock != nil && phi.Block() != f.curBlock && !phi.Block().Dominates(f.curBlock) {
+				continue
+			}
+			if lastPhi == nil || lastPhi.(*ssa.Phi).Block().Dominates(phi.Block()) {
+				lastPhi = c
 			}
 		}
 		if lastPhi != nil {
